@@ -162,11 +162,8 @@ class Tally:
             cl = verdicts.get(i, "missing")
             if cl == "outside_domain_no_kept_cell":
                 raise core.MachineryError("driver produced a case without kept cell: %s" % case["job"])
-            mask_box = None
             H, W = case["H"], case["W"]
             o = case["out"]
-            if (o["h"], o["w"]) != (H, W) or cl != "ok":
-                pass
             # non-trivial: the minimal window is a proper sub-window of the raster
             ctx_key = (kind, case["tag"], H, W, json.dumps(case["data"]), json.dumps(case["list"]))
             if case.get("proper"):
@@ -198,8 +195,6 @@ class Tally:
 
 
 def observe(ctx, jobs, name, tally, kind, parallel=8):
-    for j in jobs:
-        pass
     cases = core.run_jobs("trim_worker", jobs, nproc=16)
     for c, j in zip(cases, jobs):
         c["proper"] = j.get("proper", False)
@@ -250,8 +245,8 @@ def run(ctx):
     # three-valued rasters incl. NaN cells, lists without NaN (NaN cells are kept)
     mc(ctx, "trim_nan_cells_2x3", 2, 3, [0, 1, NAN], [[0], [0, 1]], "trim")
     mc(ctx, "crop_2x3", 2, 3, [0, 1, 2, NAN], [[1], [1, 2], [2, 1]], "crop")
-    mc(ctx, "crop_3x3", 3, 3, [0, 1, 2], [[1], [1, 2]], "crop", live=False)
     if thorough:
+        mc(ctx, "crop_3x3", 3, 3, [0, 1, 2], [[1], [1, 2]], "crop", live=False)
         mc(ctx, "trim_nan_cells_3x3", 3, 3, [0, 1, NAN], [[0], [0, 1]], "trim", live=False)
         mc(ctx, "crop_3x4", 3, 4, [0, 1, 2], [[1], [2, 1]], "crop", inv=INV_FAST, live=False)
         mc(ctx, "trim_2x7", 2, 7, [0, 1], [[0]], "trim")
@@ -284,10 +279,12 @@ def run(ctx):
                 if (H, W) in mid and not thorough and fam in ("int_0_2", "crop_2"):
                     continue
                 jobs.append(mark_proper(fam_job(fam, mask, H, W), mask))
-    fams44 = FAMILIES if thorough else ["int_0", "float_default_nan"]
+    rng = random.Random(ctx.seed * 7919 + 18)
     for mask in all_masks(4, 4):
-        for fam in fams44:
-            jobs.append(mark_proper(fam_job(fam, mask, 4, 4), mask))
+        for fam in FAMILIES:
+            # quick: the full 4x4 mask space on integer data, a seeded 1/16 of it in the other encodings
+            if thorough or fam == "int_0" or rng.random() < 1 / 16:
+                jobs.append(mark_proper(fam_job(fam, mask, 4, 4), mask))
     if thorough:
         for (H, W) in [(2, 7), (7, 2), (1, 10), (10, 1), (3, 5), (5, 3)]:
             for mask in all_masks(H, W):
@@ -300,10 +297,7 @@ def run(ctx):
                     "scan": c.get("scan"), "out_shape": [c["out"]["h"], c["out"]["w"]] if "out" in c else None})
 
     # ------------------------------------------------------------------ T: seeded larger rasters
-    rng = random.Random(ctx.seed * 7919 + 18)
     jobs = random_jobs(rng, ctx.pick(300, 4000))
-    for j in jobs:
-        mask = None
     cases = observe(ctx, jobs, "random_rasters", tally, "T", parallel=ctx.pick(4, 8))
     for c in cases:
         if "out" in c and (c["out"]["h"], c["out"]["w"]) != (c["H"], c["W"]):
